@@ -278,6 +278,27 @@ func c05history(r *core.Run, hi int) {
 		tokenStart[e.firstOff] = true
 	}
 	var maxSplitGap int64 // longest pause of the feeder in the middle of a token
+	// scheduling latency of this process during the history: a goroutine that only sleeps 2 ms at a
+	// time measures by how much it oversleeps. When goroutines are held up for a time comparable
+	// with the 50 ms escape timeout (16 histories run in parallel under the race detector), the
+	// library's reader can be held up just the same between reading the rest of a sequence and
+	// passing it on, and the timeout fires although the terminal sent the sequence in one go.
+	var maxLag int64
+	lagStop := make(chan struct{})
+	defer close(lagStop)
+	go func() {
+		for {
+			t0 := time.Now()
+			select {
+			case <-lagStop:
+				return
+			case <-time.After(2 * time.Millisecond):
+			}
+			if lag := int64(time.Since(t0)) - int64(2*time.Millisecond); lag > atomic.LoadInt64(&maxLag) {
+				atomic.StoreInt64(&maxLag, lag)
+			}
+		}
+	}()
 	go func() {
 		frg := rand.New(rand.NewPCG(uint64(hi), 9))
 		off := 0
@@ -430,6 +451,10 @@ func c05history(r *core.Run, hi int) {
 				// the harness itself paused in the middle of a sequence for a time comparable
 				// with the 50 ms escape timeout: the terminal "sent" it that way
 				r.Inconclusive(fmt.Sprintf("history %d: feeder paused %dms inside a sequence", hi, g/int64(time.Millisecond)))
+				return
+			}
+			if lag := atomic.LoadInt64(&maxLag); lag > int64(20*time.Millisecond) {
+				r.Inconclusive(fmt.Sprintf("history %d: goroutines of this process were held up for up to %dms (machine load): escape-timeout decisions are not judged", hi, lag/int64(time.Millisecond)))
 				return
 			}
 			fail("input:"+kind+":"+want.ev.T, fmt.Sprintf("input event %d should be %s, PollEvent delivered %s", ei, want.ev, n))
@@ -756,6 +781,7 @@ func stallSplit(r *core.Run, first, second []byte, label string) {
 		}
 		wait := ls.startPoll(0x1d)
 		t1 := time.Now()
+		mark := lagMark()
 		ls.tty.Feed(first)
 		for i := 0; i < 300; i++ {
 			runtime.Gosched()
@@ -778,7 +804,7 @@ func stallSplit(r *core.Run, first, second []byte, label string) {
 		switch {
 		case !ok:
 			r.Case("")
-		case !stalled || gap > 40*time.Millisecond:
+		case !stalled || gap > 40*time.Millisecond || lagged(mark):
 			// the harness did not manage to deliver the second read inside the timeout window
 			r.Count("stall_rounds_with_compromised_timing", 1)
 			r.Case("")
